@@ -140,7 +140,7 @@ using LinkVec = std::vector<std::pair<tr::SpanContext, PairVec>>;
 // done() is called as soon as the call returns: every block is overwritten with a different valid
 // value of the same size (pass "scribble") and, in pass "free", released as well.
 class Arena {
-  enum K : uint8_t { CHARS, CSTR, BOOLS, PODS, VIEWS, ATTRVAL, KVI, LINKS, PAIRVEC, LINKVEC };
+  enum K : uint8_t { CHARS, CSTR, BOOLS, PODS, VIEWS, ATTRVAL, KVI, LINKS, PAIRVEC, LINKVEC, SPANCTX };
   struct Blk { void *p; size_t n; K k; };
   std::vector<Blk> blks_;
   void *raw(size_t bytes, size_t n, K k) {
@@ -201,6 +201,12 @@ class Arena {
     return *p;
   }
   const AttributeValue &val(int vi) { return val(values()[vi]); }
+  // a SpanContext that is handed over by reference (Span::AddLink) is caller storage as well
+  const tr::SpanContext &ctx(const tr::SpanContext &sc) {
+    tr::SpanContext *p = new tr::SpanContext(sc);
+    blks_.push_back(Blk{p, 0, SPANCTX});
+    return *p;
+  }
   HeapKVI &kvi(const KVList &l);
   PairVec &pairs(const KVList &l);
   HeapLinks &links(const std::vector<std::pair<tr::SpanContext, KVList>> &l);
@@ -275,6 +281,11 @@ inline void Arena::done(bool do_free) {
       case LINKS: { auto *p = static_cast<HeapLinks *>(b.p); p->items.clear(); break; }
       case PAIRVEC: { auto *p = static_cast<PairVec *>(b.p); for (auto &e : *p) e = {nostd::string_view(kScr), garbage_value()}; break; }
       case LINKVEC: { auto *p = static_cast<LinkVec *>(b.p); for (auto &l : *p) for (auto &e : l.second) e = {nostd::string_view(kScr), garbage_value()}; break; }
+      case SPANCTX: {
+        static const uint8_t kT[16] = {0x5c, 0x5c, 0x5c, 0x5c, 0x5c, 0x5c, 0x5c, 0x5c, 0x5c, 0x5c, 0x5c, 0x5c, 0x5c, 0x5c, 0x5c, 0x5c};
+        *static_cast<tr::SpanContext *>(b.p) = tr::SpanContext(tr::TraceId(kT), tr::SpanId(nostd::span<const uint8_t, 8>(kT, 8)), tr::TraceFlags(0x5c), true, tr::TraceState::FromHeader("scribbled=1"));
+        break;
+      }
     }
   }
   if (do_free) release();
@@ -287,6 +298,7 @@ inline void Arena::release() {
       case LINKS: delete static_cast<HeapLinks *>(b.p); break;
       case PAIRVEC: delete static_cast<PairVec *>(b.p); break;
       case LINKVEC: delete static_cast<LinkVec *>(b.p); break;
+      case SPANCTX: delete static_cast<tr::SpanContext *>(b.p); break;
       default: free(b.p);
     }
   }
@@ -297,8 +309,9 @@ inline void Arena::release() {
 struct Sink {
   std::vector<std::unique_ptr<sdktr::SpanData>> exported;  // in export order
   std::vector<sdktr::SpanData *> made;                     // every recordable handed out
-  int export_calls = 0, on_end = 0, on_start = 0, null_recordables = 0, empty_batches = 0, shutdowns = 0;
+  int export_calls = 0, on_end = 0, on_start = 0, on_start_foreign = 0, null_recordables = 0, empty_batches = 0, shutdowns = 0;
   bool deferred = false;
+  bool late = false;  // attached to the provider while the span under test was already running
 };
 
 class KeepExporter final : public sdktr::SpanExporter {
@@ -334,7 +347,13 @@ class DeferredProcessor final : public sdktr::SpanProcessor {
  public:
   DeferredProcessor(Sink &s, std::unique_ptr<sdktr::SpanExporter> e) : s_(s), exp_(std::move(e)) { s_.deferred = true; }
   std::unique_ptr<sdktr::Recordable> MakeRecordable() noexcept override { return exp_->MakeRecordable(); }
-  void OnStart(sdktr::Recordable &, const tr::SpanContext &) noexcept override { s_.on_start++; }
+  void OnStart(sdktr::Recordable &r, const tr::SpanContext &) noexcept override {
+    s_.on_start++;
+    // the start notification must come with the recordable this processor made for the span
+    bool mine = false;
+    for (sdktr::SpanData *d : s_.made) mine |= static_cast<sdktr::Recordable *>(d) == &r;
+    if (!mine) s_.on_start_foreign++;
+  }
   void OnEnd(std::unique_ptr<sdktr::Recordable> &&span) noexcept override {
     s_.on_end++;
     q_.push_back(std::move(span));
